@@ -87,7 +87,7 @@ func runC07(c *Ctx) {
 	c.rule("R07.7", "frames executed in arrival order with synchronous dispatch")
 
 	// ---- R07.1
-	if c.needWS("R07.1", "outChans", w.OutChans) && c.needWS("R07.1", "nextWriter", w.NextWriter) {
+	if c.needWS("R07.1", "outChans", w.OutChans) {
 		oc := w.OutChans
 		// the store of the registered channel into a select case
 		var join ssa.Instruction
@@ -119,7 +119,7 @@ func runC07(c *Ctx) {
 				ci, ok := in.(*ssa.Call)
 				return ok && calleeName(ci) == "reflect.Select"
 			}
-			isAnnounce := func(in ssa.Instruction) bool { return isCallTo(in, w.NextWriter) }
+			isAnnounce := func(in ssa.Instruction) bool { return c.isSocketNextWriter(in) }
 			wv := reachFrom(join, isSelect, isAnnounce)
 			c.check(wv == nil, "R07.1", construct, c.ipos(join), "every path from joining the select set to the next select writes the announcement through the locked writer",
 				"a registered channel can be selected on before its announcing response was written through the locked message writer: the first value can precede (or interleave with) the response that tells the client about the channel")
@@ -253,6 +253,10 @@ func runC07(c *Ctx) {
 
 	// ---- R07.7
 	c.arrivalOrderRule("R07.7")
+
+	// ---- R07.8
+	c.rule("R07.8", "the caller's channel is closed only when the subscription context is done or when the buffer is empty")
+	c.closeWhenDrained("R07.8")
 }
 
 // decouplingRule: R07.4
@@ -287,6 +291,7 @@ func (c *Ctx) decouplingRule(rule string) {
 	// intake channel: captured variable of type chan reflect.Value
 	okAll := true
 	hasIntake := false
+	var intakeVar ssa.Value
 	allInstrs(buf, func(in ssa.Instruction) {
 		switch x := in.(type) {
 		case *ssa.Call:
@@ -294,6 +299,28 @@ func (c *Ctx) decouplingRule(rule string) {
 				a := stripConv(x.Common().Args[0])
 				if ch, ok := a.Type().Underlying().(*types.Chan); ok && isNamed(ch.Elem(), "reflect", "Value") {
 					hasIntake = true
+					// the case must carry the intake itself, not "the intake or nil" chosen by some condition
+					var nilEdge func(v ssa.Value, d int) bool
+					nilEdge = func(v ssa.Value, d int) bool {
+						if d > 4 {
+							return false
+						}
+						if ph, ok := v.(*ssa.Phi); ok {
+							for _, e := range ph.Edges {
+								if isNilConst(e) || nilEdge(e, d+1) {
+									return true
+								}
+							}
+						}
+						return false
+					}
+					if nilEdge(a, 0) {
+						okAll = false
+						c.bad(rule, construct, c.ipos(x), "the intake case is replaced by a nil channel under some condition (e.g. while the buffer is long): once the intake is not drained, the sink blocks inside the single frame executor and every call and stream on the connection stalls behind one slow consumer")
+					}
+					if ld, ok := a.(*ssa.UnOp); ok && ld.Op == token.MUL {
+						intakeVar = c.P.canonVar(ld.X)
+					}
 				}
 			}
 		case *ssa.Store:
@@ -317,6 +344,29 @@ func (c *Ctx) decouplingRule(rule string) {
 	if !hasIntake {
 		okAll = false
 		c.bad(rule, construct, p.pos(buf.Pos()), "the intake channel is not among the select cases")
+	}
+	// the intake variable is given up (set to nil) only once the intake was closed (receive reported !ok)
+	if intakeVar != nil {
+		var selOK ssa.Value
+		allInstrs(buf, func(in ssa.Instruction) {
+			if ci, ok := in.(*ssa.Call); ok && calleeName(ci) == "reflect.Select" {
+				for _, ref := range *ci.Referrers() {
+					if ex, ok := ref.(*ssa.Extract); ok && ex.Index == 2 {
+						selOK = ex
+					}
+				}
+			}
+		})
+		allInstrs(buf, func(in ssa.Instruction) {
+			st, ok := in.(*ssa.Store)
+			if !ok || c.P.canonVar(st.Addr) != intakeVar || !isNilConst(st.Val) {
+				return
+			}
+			if selOK == nil || !condKnown(st.Block(), selOK, false) {
+				okAll = false
+				c.bad(rule, construct, c.ipos(st), "the intake is switched off although it was not closed: values the sink hands over afterwards are never taken, and the sink blocks the frame executor")
+			}
+		})
 	}
 	if okAll {
 		c.ok(rule, construct, p.pos(buf.Pos()), "intake case built unconditionally and never rewritten")
@@ -492,4 +542,127 @@ func (c *Ctx) onlyUnderConnOnce(fn *ssa.Function, depth int) bool {
 		}
 	}
 	return n > 0
+}
+
+// bufferingGoroutine: the client function that multiplexes with reflect.Select and buffers in a container/list.
+func (c *Ctx) bufferingGoroutine() *ssa.Function {
+	var buf *ssa.Function
+	for _, fn := range c.P.Funcs {
+		if pkgOf(fn) != c.P.Root.Pkg {
+			continue
+		}
+		sel, lst := false, false
+		allInstrs(fn, func(in ssa.Instruction) {
+			if ci, ok := in.(*ssa.Call); ok {
+				n := calleeName(ci)
+				if n == "reflect.Select" {
+					sel = true
+				}
+				if len(n) > 22 && n[:22] == "(*container/list.List)" {
+					lst = true
+				}
+			}
+		})
+		if sel && lst {
+			buf = fn
+		}
+	}
+	return buf
+}
+
+// closeWhenDrained: lossless delivery needs that the buffering goroutine closes the caller's channel
+// only (a) in the arm chosen for the subscription context, or (b) where the buffer is known to be empty.
+// Any other close (an idle timer, a backlog limit, the close notification itself) drops buffered values.
+func (c *Ctx) closeWhenDrained(rule string) {
+	p := c.P
+	buf := c.bufferingGoroutine()
+	if !c.need(rule, "client buffering goroutine", buf != nil) {
+		return
+	}
+	// index of the context case in the case list literal
+	ctxIdx := int64(-1)
+	allInstrs(buf, func(in ssa.Instruction) {
+		st, ok := in.(*ssa.Store)
+		if !ok {
+			return
+		}
+		fa, ok := st.Addr.(*ssa.FieldAddr)
+		if !ok {
+			return
+		}
+		ia, ok := fa.X.(*ssa.IndexAddr)
+		if !ok {
+			return
+		}
+		vo, ok := st.Val.(*ssa.Call)
+		if !ok || calleeName(vo) != "reflect.ValueOf" {
+			return
+		}
+		if call, ok := stripConv(vo.Common().Args[0]).(*ssa.Call); ok && call.Common().IsInvoke() && call.Common().Method.Name() == "Done" {
+			if k, ok := constInt(ia.Index); ok {
+				ctxIdx = k
+			}
+		}
+	})
+	var chosen ssa.Value
+	allInstrs(buf, func(in ssa.Instruction) {
+		if ci, ok := in.(*ssa.Call); ok && calleeName(ci) == "reflect.Select" {
+			for _, ref := range *ci.Referrers() {
+				if ex, ok := ref.(*ssa.Extract); ok && ex.Index == 0 {
+					chosen = ex
+				}
+			}
+		}
+	})
+	n := 0
+	allInstrs(buf, func(in ssa.Instruction) {
+		ci, ok := in.(*ssa.Call)
+		if !ok || calleeName(ci) != "(reflect.Value).Close" {
+			return
+		}
+		n++
+		construct := fmt.Sprintf("%s: close of the caller's channel", fname(buf))
+		why := ""
+		for _, cf := range expandConds(impliedConds(in.Block())) {
+			bo, ok := cf.Cond.(*ssa.BinOp)
+			if !ok {
+				continue
+			}
+			op := bo.Op
+			if !cf.True {
+				op = negate(op)
+			}
+			// (a) chosen == ctxIdx
+			if op == token.EQL && chosen != nil && ctxIdx >= 0 {
+				if k, ok := constInt(bo.Y); ok && bo.X == chosen && k == ctxIdx {
+					why = "in the subscription-context arm"
+				}
+				if k, ok := constInt(bo.X); ok && bo.Y == chosen && k == ctxIdx {
+					why = "in the subscription-context arm"
+				}
+			}
+			// (b) buf.Len() == 0 (or <= 0, < 1)
+			isLen := func(v ssa.Value) bool {
+				call, ok := v.(*ssa.Call)
+				return ok && calleeName(call) == "(*container/list.List).Len"
+			}
+			L, R := bo.X, bo.Y
+			if isLen(R) {
+				L, R = R, L
+				op = flip(op)
+			}
+			if isLen(L) {
+				if k, ok := constInt(R); ok {
+					if (op == token.EQL && k == 0) || (op == token.LEQ && k == 0) || (op == token.LSS && k == 1) {
+						why = "buffer known empty"
+					}
+				}
+			}
+		}
+		c.check(why != "", rule, construct, c.ipos(in), why,
+			"the caller's channel can be closed while values are still buffered and the subscription's context is live (e.g. on an idle timer or right at the close notification): the undelivered tail is dropped and the consumer sees a normal-looking close")
+	})
+	if n == 0 {
+		c.und(rule, "close of the caller's channel", p.pos(buf.Pos()), "none found in the buffering goroutine")
+	}
 }
